@@ -78,7 +78,12 @@ class C03(Prop):
             'the setting, by the driver, or both. 3 % of the cases are sequences of 3-7 submissions on one real port: '
             'an accepted text, then whitespace inserted inside tokens of / anywhere in exactly the text in place '
             '(canonical or as reported), the same text again, all whitespace removed, single-token mutations of it, '
-            'other good and bad texts, clear, disable+enable, and a restart from the persisted record. A case is '
+            'other good and bad texts, clear, disable+enable, and a restart from the persisted record. 4 % are sequences '
+            '(kind multi) of 2-6 grammar texts for several ports parsed one after the other in one process, most of them '
+            'calling the same function with own dependencies, the earlier ones with port references among the arguments; '
+            'afterwards the canonical text of each is parsed again and its print/tree/dependencies/values are compared '
+            'with those at acceptance and with the model; a failure counts only if a pristine copy of the process '
+            '(forked before anything was parsed) shows it for the case alone. A case is '
             'non-trivial when the text contains a call or is rejected; distinct = distinct (text outcome) pairs')
     CORRESPONDENCE = ('Parse.parse (parseFuel/parseCall/scan/step/finish/parsePort/parseLiteral, Syntax.Expr.print, '
                       'Parse.deps) <-> core.expressions.parse / Function.parse / PortExpression.parse / '
